@@ -754,8 +754,11 @@ func (o *ovsdbClient) update3(params []json.RawMessage, reply *[]interface{}) er
 
 	if err == nil {
 		db.monitorsMutex.Lock()
-		mon := db.monitors[cookie.ID]
-		mon.LastTransactionID = lastTransactionID
+		// the monitor may be unknown here: a Monitor call that gave up
+		// (context expired) before the server answered is not registered
+		if mon := db.monitors[cookie.ID]; mon != nil {
+			mon.LastTransactionID = lastTransactionID
+		}
 		db.monitorsMutex.Unlock()
 	}
 
